@@ -11,9 +11,9 @@ Definition regs_of (ops : list op) : list mwreg :=
                      | OAddHMw n id a => [MR false n id a]
                      | _ => [] end) ops.
 Definition pdecs_of (ops : list op) : list N :=
-  flat_map (fun o => match o with OAddPubDec d => [d] | _ => [] end) ops.
+  flat_map (fun o => match o with OAddPubDec d _ => [d] | _ => [] end) ops.
 Definition sdecs_of (ops : list op) : list N :=
-  flat_map (fun o => match o with OAddSubDec d => [d] | _ => [] end) ops.
+  flat_map (fun o => match o with OAddSubDec d _ => [d] | _ => [] end) ops.
 
 Definition is_add (n : N) (o : op) : bool :=
   match o with OAddHandler h => N.eqb (h_name h) n | _ => false end.
@@ -65,7 +65,7 @@ Definition spec_trace (h : hcfg) (s : started) (d : delivery) : list ev :=
          let t := h_pubtopic h in
          map (fun x => EPubDec x t outs) (s_pubdecs s)
          ++ match h_pub h with
-            | PReal id _ => [EPublish id t (map (fun m => (m, out_ctx h cin m)) outs); ESettle (accepts (d_pb d))]
+            | PReal id _ => [EPublish id t (map (fun m => (m, out_ctx h cin m, own_ctx d m)) outs); ESettle (accepts (d_pb d))]
             | _ => [ESettle false]
             end
      | _ => [ESettle false]
@@ -108,11 +108,53 @@ Fixpoint prog_ok (same : list ev -> list ev -> bool) (pre ops : list op)
   | o :: r => prog_ok same (pre ++ [o]) r obss
   end.
 
+(** ** programs with Handler.Stop / re-added names / decorators whose constructors fail
+    The wiring the Router holds is then the state of the registration machine [exec] (its laws are
+    theorems: registrations are never removed, a started handler is frozen until it is stopped, a
+    failing RunHandlers starts nobody, ...); the prescribed TRACE of a copy stays the declarative
+    [spec_trace].  For programs without those operations ([plain]) the state is the declarative
+    reading above (theorem [exec_inv]). *)
+Definition plain_op (o : op) : bool :=
+  match o with
+  | OStop _ => false
+  | OAddPubDec _ (S _) | OAddSubDec _ (S _) => false
+  | _ => true
+  end.
+Definition plain (ops : list op) : bool := forallb plain_op ops.
+
+Definition expected_st (st : rstate) (d : delivery) (n : N) : option (list ev) :=
+  match find_handler n st with
+  | Some (HS h (Some s)) =>
+      if N.eqb (h_sub h) (d_sub d) && N.eqb (h_subtopic h) (d_topic d) then Some (spec_trace h s d) else None
+  | _ => None
+  end.
+Definition obs_ok_st (same : list ev -> list ev -> bool) (st : rstate) (d : delivery)
+           (obs : list (N * list ev)) : bool :=
+  forallb (fun p => match expected_st st d (fst p) with
+                    | Some tr => same (snd p) tr
+                    | None => false end) obs
+  && forallb (fun n => Nat.eqb (count_name n obs)
+                               (match expected_st st d n with Some _ => 1 | None => 0 end))
+             (map (fun hs => h_name (hs_cfg hs)) (handlers st)).
+Fixpoint prog_ok_st (same : list ev -> list ev -> bool) (st : rstate) (ops : list op)
+         (obss : list (list (N * list ev))) : bool :=
+  match ops with
+  | [] => match obss with [] => true | _ => false end
+  | ODeliver d :: r =>
+      match obss with
+      | obs :: obss' => obs_ok_st same st d obs && prog_ok_st same st r obss'
+      | [] => false
+      end
+  | o :: r => prog_ok_st same (step st o) r obss
+  end.
+
 (** ** equality of events *)
 Definition ctx_eqb (a b : ctxv) : bool :=
   N.eqb (c_handler a) (c_handler b) && N.eqb (c_pubname a) (c_pubname b) && N.eqb (c_subname a) (c_subname b)
   && N.eqb (c_subtopic a) (c_subtopic b) && N.eqb (c_pubtopic a) (c_pubtopic b).
-Definition omsg_eqb (a b : omsg) : bool := N.eqb (fst a) (fst b) && ctx_eqb (snd a) (snd b).
+Definition uctx_eqb (a b : uctx) : bool := N.eqb (fst a) (fst b) && Bool.eqb (snd a) (snd b).
+Definition omsg_eqb (a b : omsg) : bool :=
+  N.eqb (fst (fst a)) (fst (fst b)) && ctx_eqb (snd (fst a)) (snd (fst b)) && uctx_eqb (snd a) (snd b).
 Definition ev_eqb (a b : ev) : bool :=
   match a, b with
   | ESubDec d1 c1, ESubDec d2 c2 => N.eqb d1 d2 && ctx_eqb c1 c2
@@ -131,7 +173,8 @@ Definition c08_keep (e : ev) : bool :=
   match e with EFn _ _ | EPublish _ _ _ | ESettle _ => true | _ => false end.
 Definition c08_same (impl spec : list ev) : bool :=
   list_eqb ev_eqb (filter c08_keep impl) (filter c08_keep spec).
-Definition c08_monitor := prog_ok c08_same [].
+Definition c08_monitor := prog_ok c08_same [].            (* plain programs: judged by the declarative reading *)
+Definition c08_monitor_st := prog_ok_st c08_same rinit.   (* all programs *)
 
 (** ** C09: the ORDER in which subscriber decorators (with the context values they see: they come after the
     Router's context decorator), middlewares (entry and exit), the handler
@@ -151,6 +194,7 @@ Definition oev_eqb (a b : oev) : bool :=
   end.
 Definition c09_same (impl spec : list ev) : bool := list_eqb oev_eqb (c09_proj impl) (c09_proj spec).
 Definition c09_monitor := prog_ok c09_same [].
+Definition c09_monitor_st := prog_ok_st c09_same rinit.
 
 (** projections used by the theorem statements *)
 Definition fn_calls (tr : list ev) : list (N * ctxv) :=
